@@ -189,3 +189,38 @@ m('c19-loader-always-recorded', 'C19', PE, "        if save_context.loader is no
   "        loader = save_context.loader if save_context.loader is not None else default_loader\n        Savable.set_custom_meta(out_state, META__OBJECT_LOADER, default_loader.identify_object(loader.__class__))", 'fire', 'Savable.save')
 m('c19-type-path-mismatch', 'C19', PE, "            return saved_state[META][META__TYPES][name]", "            return saved_state[META__TYPES][name]", 'fire', '_get_meta_type')
 m('c19-silent-docstring', 'C19', PE, '        """Add additional information to the context by making a copy with the new values"""', '        """Copy the context, extended with the new values."""', 'silent')
+
+# ------------------------------------------------------------------ C03
+m('c03-callback-handler-removed', 'C03', EV, "            try:\n                await self._callback(*self._args, **self._kwargs)\n            except Exception:\n                exc_info = sys.exc_info()\n                self._process.callback_excepted(self._callback, exc_info[1], exc_info[2])\n            finally:\n                self._done()",
+  "            try:\n                await self._callback(*self._args, **self._kwargs)\n            finally:\n                self._done()", 'fire', 'ProcessCallback.run')
+m('c03-listener-handler-removed', 'C03', EH, "            try:\n                getattr(listener, event_function.__name__)(*args, **kwargs)\n            except Exception as exception:\n                _LOGGER.error(\"Listener '%s' produced an exception:\\n%s\", listener, exception)",
+  "            getattr(listener, event_function.__name__)(*args, **kwargs)", 'fire', 'fire_event')
+m('c03-transition-handler-narrowed', 'C03', SM, "        except Exception:\n            self._transitioning = False\n            if self._transition_failing:", "        except RuntimeError:\n            self._transitioning = False\n            if self._transition_failing:", 'fire', 'transition_to')
+m('c03-created-reraise-widened', 'C03', P, "        if final_state == process_states.ProcessState.CREATED:\n            raise exception.with_traceback(trace)", "        if final_state != process_states.ProcessState.EXCEPTED:\n            raise exception.with_traceback(trace)", 'fire', 'transition_failed')
+m('c03-transitioning-not-reset', 'C03', SM, "        finally:\n            self._transition_failing = False\n            self._transitioning = False", "        finally:\n            self._transition_failing = False", 'fire', 'transition_to')
+m('c03-action-no-capture', 'C03', FU, "            with kiwipy.capture_exceptions(self):\n                self.set_result(self._action(*args, **kwargs))", "            self.set_result(self._action(*args, **kwargs))", 'fire', 'CancellableAction.run')
+m('c03-step-swallows-failure', 'C03', PS, "            except Exception:\n                excepted = self.create_state(ProcessState.EXCEPTED, *sys.exc_info()[1:])\n                return cast(State, excepted)",
+  "            except Exception:\n                self.process.logger.exception('step failed')\n                return None", 'fire', 'Running.execute')
+m('c03-excepted-loses-exception', 'C03', P, "                next_state = self.create_state(process_states.ProcessState.EXCEPTED, *sys.exc_info()[1:])", "                next_state = self.create_state(process_states.ProcessState.EXCEPTED, RuntimeError('step failed'))", 'fire', 'Process.step')
+m('c03-fail-wrong-state', 'C03', P, "        new_state = self._create_state_instance(\n            process_states.ProcessState.EXCEPTED, exception=exception, trace_back=trace_back\n        )\n        self.transition_to(new_state)\n\n    def kill",
+  "        new_state = self._create_state_instance(process_states.ProcessState.KILLED, msg=None)\n        self.transition_to(new_state)\n\n    def kill", 'fire', 'Process.fail')
+m('c03-callback-wrong-exception', 'C03', EV, "self._process.callback_excepted(self._callback, exc_info[1], exc_info[2])", "self._process.callback_excepted(self._callback, None, None)", 'fire', 'ProcessCallback.run')
+m('c03-pausing-not-reset', 'C03', P, "        finally:\n            self._pausing = None\n\n        return True", "        finally:\n            pass\n\n        return True", 'fire', '_do_pause')
+m('c03-silent-running-handler-narrowed', 'C03', PS, "            except Exception:\n                excepted = self.create_state(ProcessState.EXCEPTED, *sys.exc_info()[1:])\n                return cast(State, excepted)\n            else:",
+  "            else:", 'silent', None, 'still contained by step()')
+m('c03-silent-cleanup-handler-removed', 'C03', P, "                try:\n                    cleanup()\n                except Exception:\n                    self.logger.exception('Process<%s>: Exception calling cleanup method %s', self.pid, cleanup)", "                cleanup()", 'silent', None, 'still contained by transition_to')
+m('c03-new-task-without-handler', 'C03', P, "        handle = events.ProcessCallback(self, self._run_task, args, kwargs)\n        self.loop.create_task(handle.run())\n        return handle",
+  "        handle = events.ProcessCallback(self, self._run_task, args, kwargs)\n        self.loop.create_task(self._run_task(callback, *args[1:], **kwargs))\n        return handle", 'fire', '_run_task', 'callback scheduled without the failing-callback handler')
+m('c03-exc-not-allowed-from-created', 'C03', PS, "    ALLOWED = {ProcessState.RUNNING, ProcessState.KILLED, ProcessState.EXCEPTED}", "    ALLOWED = {ProcessState.RUNNING, ProcessState.KILLED}", 'fire', 'Created')
+m('c03-rpc-no-capture', 'C03', P, "            with kiwipy.capture_exceptions(kiwi_future):\n                try:\n                    result = callback(*args, **kwargs)", "            if True:\n                try:\n                    result = callback(*args, **kwargs)", 'fire', 'run_callback')
+
+# ------------------------------------------------------------------ C18
+m('c18-run-task-without-scope', 'C18', P, "        with self._process_scope():\n            result = await coro(*args, **kwargs)\n        return result", "        result = await coro(*args, **kwargs)\n        return result", 'fire', '_run_task')
+m('c18-callback-not-through-run-task', 'C18', P, "        args = (callback,) + args\n        handle = events.ProcessCallback(self, self._run_task, args, kwargs)", "        handle = events.ProcessCallback(self, utils.ensure_coroutine(callback), args, kwargs)", 'fire', 'call_soon')
+m('c18-append-in-place', 'C18', P, "        stack_copy = PROCESS_STACK.get().copy()\n        stack_copy.append(self)\n        PROCESS_STACK.set(stack_copy)\n        try:", "        PROCESS_STACK.get().append(self)\n        try:", 'fire', '_process_scope')
+m('c18-pop-not-in-finally', 'C18', P, "        try:\n            yield None\n        finally:\n            assert Process.current() is self, (\n                'Somehow, the process at the top of the stack is not me, but another process! '\n                f'({self} != {Process.current()})'\n            )\n            stack_copy = PROCESS_STACK.get().copy()",
+  "        yield None\n        if True:\n            assert Process.current() is self, (\n                'Somehow, the process at the top of the stack is not me, but another process! '\n                f'({self} != {Process.current()})'\n            )\n            stack_copy = PROCESS_STACK.get().copy()", 'fire', '_process_scope')
+m('c18-current-is-bottom', 'C18', P, "            return PROCESS_STACK.get()[-1]", "            return PROCESS_STACK.get()[0]", 'fire', 'current')
+m('c18-step-executes-directly', 'C18', P, "                next_state = await self._run_task(self._state.execute)", "                next_state = await utils.ensure_coroutine(self._state.execute)()", 'fire', 'Running.execute')
+m('c18-silent-scope-renamed-local', 'C18', P, "        coro = utils.ensure_coroutine(callback)\n        with self._process_scope():\n            result = await coro(*args, **kwargs)", "        fn = utils.ensure_coroutine(callback)\n        with self._process_scope():\n            result = await fn(*args, **kwargs)", 'silent')
+m('c18-stack-set-elsewhere', 'C18', P, '        """Common initialisation logic, after create or load, goes here.\n', '        """Common initialisation logic, after create or load, goes here.\n        PROCESS_STACK.set([self])\n', 'fire', 'init')
